@@ -1,4 +1,5 @@
 import Amgcl.Proofs.SchedKernels
+import Amgcl.Proofs.SchedGersh
 /-!
 # C09 — results do not depend on the number of threads or their interleaving
 
@@ -272,6 +273,35 @@ theorem ilu_thread_indep (L U : CRS K) (D : Vec K)
   simp
 
 end ilu
+
+/-! ## reductions -/
+section gersh
+variable {K : Type} [Add K] [Mul K] [Zero K] [One K] [Div K] [LinearOrder K]
+
+/-- The Gershgorin bound of `spectral_radius` (per-thread maxima over static `omp for` chunks, combined under
+`omp critical`) is the maximum over all rows, hence the same for every team size — for any `norm`, in any linear
+order, provided every row stores its diagonal entry when `scale` is on (the thread-private `dia` is then
+overwritten in every row). -/
+theorem gershgorin_thread_indep (scale : Bool) (norm : K → K) (A : CRS K) (hd : DiagStored scale A)
+    (nt nt' : Nat) (hnt : 1 ≤ nt) (hnt' : 1 ≤ nt') :
+    gershgorin scale norm nt A = gershgorin scale norm nt' A := by
+  rw [gershgorin_eq_spec scale norm A hd nt hnt, gershgorin_eq_spec scale norm A hd nt' hnt']
+
+end gersh
+
+/-- the hypothesis `DiagStored` cannot be dropped: `dia` is declared outside the row loop (builtin.hpp:797), so a
+row without a stored diagonal entry is scaled with the diagonal of the previous row *of the same thread*
+(here `K = Int`, `norm = id`, rows `[(0,0),(1,5)]`, `[(0,3)]`). -/
+theorem gershgorin_missing_diag_counterexample :
+    gershgorin true (fun v : Int => v) 1 ⟨2, #[[(0, 0), (1, 5)], [(0, 3)]]⟩ = 0
+    ∧ gershgorin true (fun v : Int => v) 2 ⟨2, #[[(0, 0), (1, 5)], [(0, 3)]]⟩ = 3 := by decide
+
+example : DiagStored true (⟨2, #[[(0, 4), (1, 1)], [(1, 3)]]⟩ : CRS Int) := by
+  intro _ i hi
+  have : i < 2 := hi
+  match i, this with
+  | 0, _ => exact ⟨(0, 4), by simp [CRS.row, Array.getD], rfl⟩
+  | 1, _ => exact ⟨(1, 3), by simp [CRS.row, Array.getD], rfl⟩
 
 /-! ## the hypotheses are satisfiable, the barrier is necessary -/
 
